@@ -12,7 +12,9 @@ CLAIMED = {
     "C04": ("4 (C04)", "save / load / cross-read / cross-write histories over a simulated file system (SimFS) across 7 formats, interleaved attribute-adding queries, export switches flipped, benign lexical perturbations of independently written files; oracle: snapshot at save time + independent reference codecs"),
     "C05": ("4 (C05)", "stateful histories on containers with twin sparse/dense attributes, rejected operations injected anywhere; oracle RefAttr + sparse-vs-dense lock-step"),
     "C06": ("4 (C06)", "pool of meshes from every producer, clients interleaving copy/merge/transform/edit calls, every mesh compared with an independent float64 model after every call"),
+    "C12": ("4 (C12)", "pools of caller-owned arrays and of boxes built on them; box / primitive clients interleaved with an environment client that owns numpy's error mode and a rejector issuing calls that must raise; oracles: RefAABB, exact-rational laws, bitwise snapshots of every caller array, np.geterr()"),
     "C13": ("4 (C13)", "editing-block histories (cold or warm caches, open block, seeded operation sequence, close, observers on result and passed-in object, second block); oracles: documented counts, topology, area/volume, vertex placement, RefSurface/RefVolume on the result"),
+    "C19": ("4 (C19)", "sampler clients drawing from the simulator-owned global PRNG interleaved with a noise client (arbitrary stream positions), Bezier client and rejector; oracles: domain containment, exact counts, seeded chi-square on shares at p=1e-12, Bernstein form"),
     "C20": ("4 (C20)", "stateful histories on one shared UnionFind and PriorityQueue by several clients, rejected operations injected; oracles RefUF / RefPQ"),
 }
 
